@@ -248,3 +248,16 @@ CHECKS.update({
                 note=SC_NOTE + " 'The generator stops producing once the exception is observed' is checked through termination only.", design_ref="§4 C29", parts=[e1("pipe", "fault")],
                 assumptions=E1_ASSUME),
 })
+
+GRAPH_NOTE = "Native part: real threads, graphs of up to 300 nodes; E1 part: the concurrent executors on graphs of up to 11 nodes under generated dsched schedules. Generated programs follow the documented protocol (setAllNodesIncomplete before the first evaluation and after a subgraph clear + rebuild; ForwardPropagator once per marking round)."
+CHECKS.update({
+    "C30": dict(title="Graph executors respect dependencies and run each node once", level="exploration",
+                technique="program-level PBT: generated DAG build / subgraph clear+rebuild programs against a shadow DAG, executed by all four executor forms natively and under dsched schedules; oracle = per-node ledger + start/end stamps vs every shadow predecessor",
+                text="Random DAGs (Graph and BiPropGraph): 1-300 nodes placed in the graph's own and up to 3 subgraphs, nodes added in random order, edges only from lower to higher logical id but declared in random order and with duplicates, skewed fan-in, bidirectional edges; rounds of: clear a subgraph and rebuild its nodes with newly generated edges (incoming and outgoing cross-subgraph edges), setAllNodesIncomplete, execution of an already complete graph. Executors: SingleThread, ParallelFor over TaskSet and ConcurrentTaskSet, ConcurrentTaskSetExecutor, pools of 0-4 threads. Every incomplete node runs exactly once and starts after every incomplete predecessor finished; complete nodes do not run; every executed node reports isCompleted().",
+                note=GRAPH_NOTE, design_ref="§4 C30", parts=[nat("graph", "native"), e1("graph", "e1")], assumptions=E1_ASSUME[:1] + ["graphs are acyclic by construction"]),
+    "C31": dict(title="Graph partial re-evaluation runs exactly the propagated closure", level="exploration",
+                technique="program-level PBT with a reference closure computed on the shadow DAG (forward reachability, then union of every bidirectional-propagation set that intersects it); oracle = the re-run ledger equals the reference set exactly, with dependency order among re-run nodes",
+                text="C30's programs plus rounds that mark a random subset with setIncomplete(), run ForwardPropagator and execute: the set of nodes that ran equals the forward closure of the marked nodes plus all members of every bidirectional-propagation set intersecting it (sets as declared: a biprop edge merges the sets of both ends; a cleared node leaves its set) - nothing more, nothing less; order among re-run nodes as C30; setAllNodesIncomplete makes the next run a full evaluation.",
+                note=GRAPH_NOTE + " Pulled-in set members do not propagate forward again (pinned from the suite's BiPropGraphTest and the statement).", design_ref="§4 C31",
+                parts=[nat("graph", "native"), e1("graph", "e1")], assumptions=E1_ASSUME[:1] + ["graphs are acyclic by construction"]),
+})
